@@ -17,11 +17,18 @@ from migen.fhdl.structure import _Operator, _Slice, _Assign, _Fragment
 # Print Constant -----------------------------------------------------------------------------------
 
 def _generate_constant(node):
-    return "{sign}{bits}'d{value}".format(
-        sign  = "" if node.value >= 0 else "-",
+    if node.signed:
+        # Signed literal holding the two's complement pattern (ex: -1 on 4 bits = 4'sd15): a minus sign in front
+        # of an unsigned literal ("-4'd1") is an unsigned expression in Verilog and turns every expression it is
+        # part of (comparisons, >>>, sign extensions) into unsigned arithmetic.
+        return "{bits}'sd{value}".format(
+            bits  = str(node.nbits),
+            value = node.value & (2**node.nbits - 1),
+        ), True
+    return "{bits}'d{value}".format(
         bits  = str(node.nbits),
-        value = abs(node.value),
-    ), node.signed
+        value = node.value,
+    ), False
 
 # Print Signal -------------------------------------------------------------------------------------
 
